@@ -167,6 +167,14 @@ def check_row(rep, ctx, row):
             rep.case((fw.row_key(row), "get_gemini"))
             viol(rep, row, "get_gemini", f"raised {type(ex).__name__}: {ex}")
             return
+        import copy
+        dicts_before = {}
+        for pname in ("kernel_params", "metric_params"):
+            val = model.get_params().get(pname)
+            if val is None and hasattr(model.get_params().get("gemini"), pname):
+                val = getattr(model.get_params()["gemini"], pname)
+            if isinstance(val, dict):
+                dicts_before[pname] = copy.deepcopy(val)
         # (a) behavioural identification
         rep.case((fw.row_key(row), "identify"))
         with fw.capture():
@@ -182,6 +190,24 @@ def check_row(rep, ctx, row):
             X2 = np.ascontiguousarray(X[::-1] * 0.5 + 0.25)
             call2 = fw.aff_value(fam, "callable")(X2) if e["source"]["kind"] == "callable" else None
             check_affinity_fn(rep, row, "affinity-second-data", lambda y: g.compute_affinity(X2.copy(), y), named_oracle(fam, X2), call2, X2)
+        if e["source"]["kind"] == "named" and e["verdict"] != "error":
+            # ... and data of ANOTHER width: nothing derived from the first data set (a default bandwidth, for instance) may
+            # have been written into the objective or into the user's dictionary
+            X3 = np.ascontiguousarray(X[:, :2] + 0.5)
+            check_affinity_fn(rep, row, "affinity-other-width", lambda y: g.compute_affinity(X3.copy(), y),
+                              lambda name, kw: fw.sk_matrix(fam, name, kw, X3), None, X3)
+            # small unsigned / boolean data: the named kernel is the scikit-learn one, which works on real numbers
+            Xu = np.round(X * 4).astype(np.uint8)
+            check_affinity_fn(rep, row, "affinity-uint8X", lambda y: g.compute_affinity(Xu.copy(), y),
+                              lambda name, kw: fw.sk_matrix(fam, name, kw, Xu.astype(np.float64)), None, Xu.astype(np.float64))
+        for pname, before in dicts_before.items():
+            now = model.get_params().get(pname)
+            if isinstance(getattr(model.get_params().get("gemini"), pname, None), dict) and now is None:
+                now = getattr(model.get_params()["gemini"], pname)
+            rep.case((fw.row_key(row), "dictionary-untouched", pname))
+            if now != before:
+                viol(rep, row, "dictionary", f"the user's {pname} dictionary was {before} and is now {now}: computing an affinity must "
+                                             f"not write into it", "dictionary-modified")
         if e["source"]["kind"] == "precomputed" and e["verdict"] != "error":
             # the data may be handed over as integers (score / path do not convert it): the user's matrix is still the affinity
             Xi = np.round(X * 4).astype(np.int64)
